@@ -48,4 +48,14 @@ _DWM = OpContract(
                             locals={"x": "val", "d": "ref"}, unique=("d",))},
 )
 
-CONTRACTS = [_REL, _absolute(_REL), _DWM]
+_DWS = OpContract(
+    name="delay_with_mapper/subscription_delay", props=["C15"], file=OPS + "_delaywithmapper.py", func="delay_with_mapper_",
+    call="delay_with_mapper_(sub_delay, mapper)(source)", params={"mapper": "callback:source"}, sources=("source", "sub_delay"),
+    spec="specs.c15:delay_with_mapper_sub",
+    cells={"at_end": "cell:bool", "delays.disposable": "seq", "started": "cell:bool"},
+    inv="at_end[0] == s.at_end and len(delays.disposable) == s.pending and started[0] == s.started",
+    live="(not s.started) if i == 1 else s.started",
+)
+_DWS.late_subscribe = True
+
+CONTRACTS = [_REL, _absolute(_REL), _DWM, _DWS]
